@@ -175,9 +175,25 @@ class SetEncoder(encoder.SequenceEncoder):
 
             namedTypes = value.componentType
 
-            for idx, component in enumerate(value.values()):
+            if namedTypes:
+                # do not instantiate components that were never set
+                components = [
+                    value.getComponentByPosition(idx, instantiate=False)
+                    for idx in range(len(namedTypes))]
+
+            else:
+                components = value.values()
+
+            for idx, component in enumerate(components):
                 if namedTypes:
                     namedType = namedTypes[idx]
+
+                    if component is univ.noValue:
+                        if namedType.isOptional or namedType.isDefaulted:
+                            continue
+
+                        # mandatory: take what the schema has to offer
+                        component = value.getComponentByPosition(idx)
 
                     if namedType.isOptional and not component.isValue:
                             continue
